@@ -97,22 +97,31 @@ def isAnonAxisNone : Expr → Bool
   | .axis n none _ _ => n == anonName
   | _ => false
 
+/-- The ellipsis over the anonymous axis, `...`. -/
+def isEllAnon : Expr → Bool
+  | .ellipsis i _ _ _ => isAnonAxisNone i
+  | _ => false
+
+def Expr.isEllipsis : Expr → Bool | .ellipsis .. => true | _ => false
+
 /-- What may stand directly under an ellipsis besides the anonymous axis: an expression that prints as ONE token or
-    ONE delimiter group (not a list — printed with braces —, not an ellipsis — printed as `......`). -/
-def ellOperand (i : Expr) : Bool := i.isAxis || i.isFlat || i.isBrackets || i.isConcat
+    ONE delimiter group (not a list — printed with braces —, not an ellipsis other than `...` itself: `a......` is three
+    tokens in a row, while `......` re-parses as an ellipsis over `...`). -/
+def ellOperand (i : Expr) : Bool := i.isAxis || i.isFlat || i.isBrackets || i.isConcat || isEllAnon i
 
 mutual
 /-- Printable expression below `Args`, in normal form.  `inBr`: inside brackets; `allowList`: a `List` is allowed here
     (it is not directly inside another `List`, under an ellipsis or in a concatenation).
-    * named axes have a valid name; numeric axes do not stand inside brackets (restriction of the theorem, see Props/C12);
+    * named axes have a valid name; numeric axes may stand anywhere (also inside brackets: the fresh names of a re-parsed
+      tree are pairwise distinct, Proofs/NotationFresh.lean);
     * `FlattenedAxis` not directly over a `FlattenedAxis` (constructor invariant) or a `ConcatenatedAxis` (prints `((a + b))`,
       which re-parses without the outer parentheses);
     * `Brackets` not inside `Brackets` (removed by the parser), not empty;
-    * `Ellipsis` over the anonymous axis or over an `ellOperand`;
+    * `Ellipsis` over the anonymous axis or over an `ellOperand` (one axis / flattened axis / brackets / concatenation, or `...`);
     * `ConcatenatedAxis` of at least two axes / flattened axes;
     * `List` with 0 or ≥ 2 children, none of them a `List`. -/
 def PT (inBr allowList : Bool) : Expr → Bool
-  | .axis n v _ _ => match v with | none => isAxisName n | some _ => !inBr
+  | .axis n v _ _ => match v with | none => isAxisName n | some _ => true
   | .flat i _ _ => !i.isFlat && !i.isConcat && PT inBr true i
   | .brackets i _ _ => !inBr && !i.isBrackets && i.ndim != some 0 && PT true true i
   | .ellipsis i _ _ _ => isAnonAxisNone i || (!isAnonAxis i && ellOperand i && PT inBr false i)
@@ -135,11 +144,10 @@ def PRoot : Expr → Bool
   | .op cs _ _ => (cs.length == 1 || cs.length == 2) && cs.all PArgs
   | _ => false
 
-/-- `Printable t`: `t` has the normal form of `parse_op`'s results (`PRoot`), the printed text has no two adjacent spaces
-    (it has them only if the left side of `->` ends with an empty argument, `"a,  -> b"`), and `t` passes the
-    inconsistent-brackets check of the parser. -/
+/-- `Printable t`: `t` has the normal form of `parse_op`'s results without the three patterns whose printed text is not
+    (faithfully) in the notation (`PRoot`), and `t` passes the inconsistent-brackets check of the parser. -/
 def Printable (t : Expr) : Bool :=
-  PRoot t && !hasAdjSpaces (textsL t.ptree) && (conflictNames (occs [] false t)).isEmpty
+  PRoot t && (conflictNames (occs [] false t)).isEmpty
 
 /-! ### Normal form without the conditions on names (what the passes after `parse` need) -/
 
@@ -148,7 +156,7 @@ def Q (inBr allowList : Bool) : Expr → Bool
   | .axis .. => true
   | .flat i _ _ => !i.isFlat && Q inBr true i
   | .brackets i _ _ => !inBr && !i.isBrackets && i.ndim != some 0 && Q true true i
-  | .ellipsis i _ _ _ => (i.isAxis || i.isFlat || i.isBrackets || i.isConcat) && Q inBr false i
+  | .ellipsis i _ _ _ => (i.isAxis || i.isFlat || i.isBrackets || i.isConcat || i.isEllipsis) && Q inBr false i
   | .concat cs _ _ => decide (2 ≤ cs.length) && QL inBr cs
   | .list cs _ _ => allowList && cs.length != 1 && QL inBr cs
   | .args .. => false
